@@ -1,6 +1,7 @@
 import Pyxv.Model.OpsXml
 import Pyxv.Model.OpsForm
 import Pyxv.Model.OpsLexer
+import Pyxv.Model.OpsDefaults
 /-!
 Driver: one JSON request per line on stdin, one JSON reply per line on stdout.
 `{"op": "<name>", …}` → `{"ok": true, "v": …}` | `{"ok": false, "err": "…"}`.
@@ -8,7 +9,7 @@ Driver: one JSON request per line on stdin, one JSON reply per line on stdout.
 open Lean Pyxv
 
 def handlers : List (String → Json → Option (Except String Json)) :=
-  [Xml.opsXml, Form.opsForm, Lexer.opsLexer]
+  [Xml.opsXml, Form.opsForm, Lexer.opsLexer, Defaults.opsDefaults]
 
 def dispatch (op : String) (j : Json) : Except String Json :=
   let rec go : List (String → Json → Option (Except String Json)) → Except String Json
